@@ -34,8 +34,11 @@ const (
 )
 
 type Msg struct {
-	Method   string `json:"method"`
-	Meta     string `json:"meta,omitempty"`  // "", full, nocaps, badcaps, badinfo, noinfo, newer, nonstring, legacyver
+	Method string `json:"method"`
+	Meta   string `json:"meta,omitempty"` // "", full, nocaps, badcaps, badinfo, noinfo, newer, nonstring, legacyver
+	// MetaKey: the member carrying the metadata is spelt this way instead of "_meta" (_Meta, _META, _mEtA): member
+	// names are case-sensitive, so such a member is an unknown one and the message carries no metadata at all.
+	MetaKey  string `json:"meta_key,omitempty"`
 	Init     string `json:"init,omitempty"`  // initialize params variant: ok:<version> | null | absent | wrongtype | array
 	Level    string `json:"level,omitempty"` // logging/setLevel
 	CancelID int    `json:"cancel_id,omitempty"`
@@ -63,6 +66,9 @@ func genScript(rt *rapid.T) Script {
 	for i := 0; i < n; i++ {
 		m := Msg{Method: rapid.SampledFrom(methods).Draw(rt, "method")}
 		m.Meta = rapid.SampledFrom([]string{"", "", "", "", "full", "full", "noinfo", "nocaps", "nullcaps", "nullinfo", "badcaps", "badinfo", "newer", "nonstring", "legacyver"}).Draw(rt, "meta")
+		if m.Meta != "" && rapid.IntRange(0, 9).Draw(rt, "metakey") == 0 {
+			m.MetaKey = rapid.SampledFrom([]string{"_Meta", "_META", "_mEtA"}).Draw(rt, "meta_key")
+		}
 		switch m.Method {
 		case "initialize":
 			m.Init = rapid.SampledFrom([]string{"ok:2025-06-18", "ok:2025-11-25", "ok:2024-11-05", "ok:2025-03-26", "ok:2026-07-28", "ok:2024-01-01", "ok:2099-01-01", "ok:", "null", "absent", "wrongtype", "array"}).Draw(rt, "init")
@@ -132,7 +138,11 @@ func (m Msg) wire(i int) string {
 		fields = append(fields, `"progressToken":"t"`, `"progress":1`)
 	}
 	if mj, ok := metaJSON(m.Meta); ok {
-		fields = append(fields, `"_meta":`+mj)
+		key := "_meta"
+		if m.MetaKey != "" {
+			key = m.MetaKey
+		}
+		fields = append(fields, `"`+key+`":`+mj)
 	}
 	params := `,"params":{` + strings.Join(fields, ",") + `}`
 	if m.Method == "initialize" {
@@ -262,6 +272,10 @@ func runInBubble(s Script) (res vt.Result) {
 		ipBefore := ss.InitializeParams()
 
 		line := memio.Respell(m.wire(i), s.Spell)
+		if m.MetaKey != "" {
+			m.Meta = "" // judged as what it is: a message without metadata (and one unknown member)
+			res.Class("metadata_under_a_differently_cased_member_name")
+		}
 		if err := peer.Send(line); err != nil {
 			res.Failf("msg %d: connection no longer writable (session torn down?): %v", i, err)
 			return
